@@ -357,7 +357,7 @@ def finish(prop, tier, seed, plan, results, known, classify, wall, build_s, writ
         "traces_validated_against_impl": plan.get("validated", 0),
         "evaluations": evals,
         "distinct_nontrivial": plan.get("distinct_nontrivial_fn", lambda rs: orders + outcomes + crash_states)(results),
-        "rule": plan["rule"] + " | distinct_nontrivial counts distinct (terminal outcome + event order + crash state) classes summed over scenarios",
+        "rule": plan["rule"] + ("" if plan.get("distinct_nontrivial_fn") else " | distinct_nontrivial counts distinct (terminal outcome + event order + crash state) classes summed over scenarios"),
         "samples": samples or [{"note": "no sample"}],
         "exhaustive": bool(all_closed and not errors),
         "sleep_blocked_executions": tot["sleep_blocked"],
@@ -366,6 +366,7 @@ def finish(prop, tier, seed, plan, results, known, classify, wall, build_s, writ
         "not_closed": [s["job"] for s in scen if not s["closed"]],
         "known_findings_seen": sorted(vio_known.keys()),
         "build_s": round(build_s, 1),
+        "jobs_retried_after_engine_error": [r["job"]["id"] for r in results if r.get("retried_after")],
     }
     if plan.get("coverage_extra"):
         cov.update(plan["coverage_extra"](results))
